@@ -207,3 +207,14 @@ func H_C20_after_close() {
 }
 
 var _ = ref.Compare
+
+//verif:harness props=C20,C15 tier=quick bounds="Close twice (and an operation after Close) on a DB opened over each real store adapter (bbolt, badger with its background-GC shutdown channel): returns, never panics"
+func H_C20_close_twice_adapters() {
+	backend := nd.Choice("backend", 2)
+	db, err := OpenWithStore(openAdapter(backend))
+	nd.Assert("C20.open", err == nil)
+	nd.Assert("C20.create", db.CreateCollection("c") == nil)
+	nd.Assert("C20.close-first", db.Close() == nil)
+	nd.Assert("C20.close-second", db.Close() == nil)
+	nd.Reach("end")
+}
